@@ -417,6 +417,7 @@ def build_users(defs):
         c = strip_comments(read(f)).split("mod test")[0]
         one(r"let\s+mut\s+res\s*=\s*String::with_capacity\([^;]*\);\s*%s\(bytes,\s*&mut\s+res\)\.unwrap\(\);\s*res\s*$" % disp, fn_body(c, es), "%s %s" % (f, es))
         one(r"fn\s+fmt\(&self,\s*f:\s*&mut\s+fmt::Formatter<'_>\)\s*->\s*fmt::Result\s*\{\s*%s\(self\.0,\s*f\)\s*\}\s*\}\s*Display\(octets\.as_ref\(\)\)\s*$" % disp, fn_body(c, ed), "%s %s" % (f, ed))
+    one(r"^\s*decode\(s\)\s*$", fn_body(strip_comments(read("src/utils/base16.rs")), "decode_vec"), "base16 decode_vec")
     defs.append(("encode_wrappers_are_display", "bool", "true"))
     # bounded builders: how a failing append_slice is handled
     c64 = strip_comments(read("src/utils/base64.rs")).split("mod test")[0]
